@@ -204,6 +204,38 @@ def schedules(chk, gwbin, label, cfg, mcases):
         chk.tie("gateway still running after the schedules (%s)" % label, g.alive(), g.log_tail())
 
 
+def version_reads(chk, gwbin):
+    """a read that names a version by its id, parked at each of its steps while that version (the current one) is overwritten: the answer
+    is that version - its body, ETag, metadata and id - whatever happens to the key meanwhile (versions do not change)"""
+    with gw.Site({"iam": False, "versioning": True}, name="c05v") as site:
+        hk = hooks.Hooks(site.base)
+        g = site.gateway(gwbin, extra_env=hk.env())
+        A, B = s3c.Client(g.port, "root", "rootsecret"), s3c.Client(g.port, "root", "rootsecret")
+        chk.require(A.req("PUT", "/bkt").status == 200 and A.req("PUT", "/bkt", query={"versioning": ""}, body=b"<VersioningConfiguration><Status>Enabled</Status></VersioningConfiguration>").status == 200,
+                    "c05:setup", "versioned bucket setup failed")
+        n = 0
+        for method, sites in (("GET", ["posix.getobject.statted", "posix.getobject.attrsread", "posix.getobject.opened"]), ("HEAD", ["posix.headobject.statted", "posix.headobject.opened"])):
+            for s_ in sites:
+                for second in ("put", "delete"):
+                    n += 1; k = "v%03d" % n; old, new = 2 * n, 2 * n + 1
+                    r1 = A.req("PUT", "/bkt/" + k, body=body_of(old), headers=write_headers(old, cksum=True)); v1 = r1.headers.get("x-amz-version-id", "")
+                    chk.require(r1.status == 200 and v1, "c05:setup", "initial versioned PUT failed")
+                    other = (lambda: B.req("PUT", "/bkt/" + k, body=body_of(new), headers=write_headers(new, cksum=True))) if second == "put" else (lambda: B.req("DELETE", "/bkt/" + k))
+                    rd, w, parked = hooks.held(hk, s_, lambda: A.req(method, "/bkt/" + k, query={"versionId": v1}, headers={"x-amz-checksum-mode": "ENABLED"}), other)
+                    chk.case(("version-read", method, s_, second), True); chk.traces += 1
+                    hk.clear()
+                    if not parked or rd is None:
+                        chk.count("versioned:%s|%s:not-reached" % (method.lower(), second)); continue
+                    c = classify(rd)
+                    ok_ = c == ("write", old) and rd.headers.get("x-amz-version-id") == v1
+                    chk.count("versioned:%s-by-id|%s:%s" % (method.lower(), second, "the-version" if ok_ else "other"))
+                    if not ok_:
+                        chk.fail("c05:version-read:%s|%s:%s" % (method.lower(), second, s_.split(".")[-1]), "%s ?versionId=<v1> parked at %s while the key is %s: answered %d with %s and x-amz-version-id %s; v1 is write %d with id %s" % (
+                            method, s_, "overwritten" if second == "put" else "deleted (a delete marker on top)", rd.status, c[:2], rd.headers.get("x-amz-version-id"), old, v1),
+                            {"method": method, "parked_at": s_, "meanwhile": second, "status": rd.status, "classified": str(c), "version_id_header": rd.headers.get("x-amz-version-id"), "v1": v1})
+        chk.tie("gateway still running after the reads by version id", g.alive(), g.log_tail())
+
+
 def bare_overwrites(chk, gwbin, label, cfg):
     """one client, no overlap: a write that supplies no metadata at all replaces a write that had all of it; the read
     afterwards must show the new write alone (no content type, user metadata, tag or checksum of the replaced one)"""
@@ -363,6 +395,7 @@ def run(chk):
     mcases = []
     for label, cfg in CONFIGS:
         schedules(chk, gwbin, label, cfg, mcases)
+    version_reads(chk, gwbin)
     for label, cfg in CONFIGS + [("sidecar", {"iam": False, "meta": "sidecar"}), ("versioned", {"iam": False, "versioning": True})]:
         bare_overwrites(chk, gwbin, label, cfg)
     for label, cfg in CONFIGS:
